@@ -301,8 +301,29 @@ def marker_line(rng, cid):
                                                    ";".join(toks) or "-", ",".join(ptok) or "-")
 
 
+def marker_overlong_line(rng, cid, at):
+    """a marker file with ONE over-long line (longer than the 64 KiB a bufio.Scanner accepts: a huge comment, or a range
+    line with a huge label) before / between / after ordinary ranges: the file must be REFUSED, never loaded up to the
+    long line with the ranges behind it silently dropped (seed C07-N)"""
+    data, toks, ranges = gen_marker(rng, allow_bad=False)
+    while not ranges or any(t == "x" for t in toks):
+        data, toks, ranges = gen_marker(rng, allow_bad=False)
+    lines = data.replace("\r\n", "\n").rstrip("\n").split("\n")
+    n = rng.choice([65536, 65537, 70000, 131072])
+    long_line = rng.choice(["# " + "c" * n, "10.99.0.1,10.99.0.2," + "L" * n, "x" * n])
+    i = {"first": 0, "middle": len(lines) // 2, "last": len(lines)}[at]
+    lines.insert(i, long_line)
+    toks = list(toks)
+    toks.insert(i, "x")
+    ps = probes_for(rng, ranges)
+    return "%s file=%s probes=%s lines=%s pr=%s" % (cid, gens.hx(("\n".join(lines) + "\n").encode()),
+                                                   ",".join(addr_text(rng, f, v) for (f, v) in ps) or "-",
+                                                   ";".join(toks) or "-", ",".join(addr_tok(f, v) for (f, v) in ps) or "-")
+
+
 def c07_marker_gen(rng, tier):
-    return [marker_line(rng, "m%d" % i) for i in range(budget(tier, 6000, 150000))]
+    out = [marker_overlong_line(rng, "ml%d" % i, at) for i, at in enumerate(("first", "middle", "last", "middle"))]
+    return out + [marker_line(rng, "m%d" % i) for i in range(budget(tier, 6000, 150000))]
 
 
 def marker_ranges(f):
